@@ -441,6 +441,9 @@ protected:
         else
         {
            m_freeListHeadPtr = allocate(1);
+           // The node stays on the free list if the element's
+           // constructor throws, so it must be a valid end of list.
+           m_freeListHeadPtr->next = 0;
            newNode = m_freeListHeadPtr;
         }
 
